@@ -235,6 +235,8 @@ class GeckoAsyncSpaMan(ABC, AsyncTasks):
 
     async def __aexit__(self, *exc_info) -> None:
         self.cancel_key_tasks("SPAMAN")
+        # Let go of the spa (and its UDP endpoint) and the facade
+        await self.async_reset()
         await self._handle_event(GeckoSpaEvent.SPA_MAN_EXIT, exc_info=exc_info)
         await AsyncTasks.__aexit__(self, exc_info)
 
